@@ -2,6 +2,7 @@
 //! Fault enumeration with real process death: the harness re-executes itself as a child that
 //! replays the history into a fresh RocksDB directory and `abort()`s right before the n-th
 //! individual database write of commit j (hook H3); the parent reopens the directory and checks.
+use radix_common::prelude::index_map_new;
 use crate::c18::open_merkle;
 use crate::smt::*;
 use crate::tmpdir::TmpDir;
@@ -251,6 +252,27 @@ pub fn sweep_history(shard: &mut Shard, u: &Universe, history: &[DatabaseUpdates
     swept
 }
 
+/// One substate of 300-900 KiB under every entity of the universe (distinct nodes, so that the
+/// commit is spread over several node updates).
+fn big_commit(rng: &mut Rng, u: &Universe) -> DatabaseUpdates {
+    let mut node_updates = index_map_new();
+    for e in &u.entities {
+        let p = *rng.pick(&u.partitions);
+        let keys = u.keys_of(p);
+        if keys.is_empty() {
+            continue;
+        }
+        let k = rng.pick(keys).clone();
+        let size = 300 * 1024 + rng.usize_below(600 * 1024);
+        let mut subs = index_map_new();
+        subs.insert(DbSortKey(k), DatabaseUpdate::Set(rng.bytes(size)));
+        let mut parts = index_map_new();
+        parts.insert(p, PartitionDatabaseUpdates::Delta { substate_updates: subs });
+        node_updates.insert(e.clone(), NodeDatabaseUpdates { partition_updates: parts });
+    }
+    DatabaseUpdates { node_updates }
+}
+
 fn one_history(rng: &mut Rng, shard: &mut Shard) -> usize {
     // very deep trees (32/50-byte keys differing in the last nibble) only multiply identical prune
     // deletes (hundreds of crash points per commit): keep such key sets at <= 4 bytes here
@@ -267,13 +289,33 @@ fn one_history(rng: &mut Rng, shard: &mut Shard) -> usize {
     let opts = GenOpts { odd_shapes: rng.chance(1, 5), churn: true };
     let n = 2 + rng.usize_below(5);
     let mut model = Model::default();
-    let history = gen_history(rng, &u, &mut model, n, opts, shard);
+    let mut history = gen_history(rng, &u, &mut model, n, opts, shard);
+    // Large commits: a store may treat big batches differently (intermediate flushes, chunking), so
+    // one history in four contains a commit of several hundred KiB per entity (well above 1 MiB in
+    // total when the universe has 3+ entities), followed by ordinary commits.
+    if rng.chance(1, 4) {
+        let big = big_commit(rng, &u);
+        let bytes: usize = big.node_updates.values().flat_map(|n| n.partition_updates.values()).map(|p| match p {
+            PartitionDatabaseUpdates::Delta { substate_updates } => substate_updates.values().map(|v| if let DatabaseUpdate::Set(b) = v { b.len() } else { 0 }).sum::<usize>(),
+            PartitionDatabaseUpdates::Reset { new_substate_values } => new_substate_values.values().map(|b| b.len()).sum::<usize>(),
+        }).sum();
+        model.apply(&big);
+        history.push(big);
+        let more = 1 + rng.usize_below(2);
+        history.extend(gen_history(rng, &u, &mut model, more, opts, shard));
+        shard.count("histories_with_large_commit");
+        if bytes >= 1 << 20 {
+            shard.count("large_commits_of_1MiB_or_more");
+        }
+        shard.max("largest_commit_bytes", bytes as u64);
+    }
+    let n = history.len();
     let pruning = rng.bool();
     shard.count("histories");
     let swept = sweep_history(shard, &u, &history, pruning);
     if shard.want_sample() {
         shard.sample(|| json!({"commits": n, "pruning": pruning, "commits_swept": swept, "substate_writes_per_commit": history.iter().map(substate_writes).collect::<Vec<_>>(),
-            "last_commit": updates_to_json(history.last().unwrap())}));
+            "last_commit": { let j = updates_to_json(history.last().unwrap()); if j.to_string().len() > 4000 { json!("(large commit omitted from the sample)") } else { j } }}));
     }
     swept
 }
